@@ -29,8 +29,13 @@ func init() {
 		sessions: [2]int{1500, 40000}, small: [2]int{2, 3}, smallT: [2]int{3, 4}})
 	gens["C02"] = routerGen(routerKnobs{prof: profBinds, routesMax: 6, reqs: 14, hdrPct: 5, treq: true,
 		sessions: [2]int{1500, 40000}})
-	gens["C07"] = routerGen(routerKnobs{prof: profDefault, routesMax: 6, reqs: 16, hdrPct: 15, rawPaths: true, repeat: true,
+	c07router := routerGen(routerKnobs{prof: profDefault, routesMax: 6, reqs: 16, hdrPct: 15, rawPaths: true, repeat: true,
 		sessions: [2]int{1200, 30000}})
+	// C07 = the router sessions, then whole applications behind Flame.ServeHTTP (harness/app.go)
+	gens["C07"] = func(r *rand.Rand, tier string, emit Emit) {
+		c07router(r, tier, emit)
+		genApp(r, tier, emit)
+	}
 	gens["C08"] = routerGen(routerKnobs{prof: profDefault, routesMax: 12, reqs: 8, hdrPct: 0, treq: false,
 		sessions: [2]int{2500, 60000}})
 	gens["C09"] = routerGen(routerKnobs{prof: profStaticMix, routesMax: 5, reqs: 14, hdrPct: 75, reHdr: true, treq: true,
